@@ -954,6 +954,7 @@ func main() {
 	}
 	e := &emitter{sink: sink}
 	probes(e)
+	nanKeyChecks(e)
 	for i := 0; i < *n; i++ {
 		inst := genInst(r, 1+r.Intn(4))
 		count(inst)
